@@ -38,14 +38,16 @@ enum ProbeId { P_rollover, P_rollover_all_generations_present, P_restart_on_empt
                P_restart_on_full, P_crash_in_write_call, P_crash_between_close_and_first_rename, P_crash_between_renames,
                P_crash_after_last_rename_before_open, P_crash_at_open, P_crash_outside_roll, P_torn_tail_glued,
                P_inflight_complete_after_crash, P_inflight_absent_after_crash, P_directory_created_by_policy,
-               P_max_gen_one, P_oversized_message, P_recovery_rolled_twice, P_files_handler_wrapper, P_long_entry, P_new_series_after_date_change, P_ten_or_more_generations_on_disk };
+               P_max_gen_one, P_oversized_message, P_recovery_rolled_twice, P_files_handler_wrapper, P_long_entry, P_new_series_after_date_change, P_ten_or_more_generations_on_disk,
+               P_blank_message, P_empty_message };
 const char* const kProbeNames[] = { "rollover", "rollover_with_all_generations_present", "restart_on_empty_generation0",
                "restart_on_partly_filled_generation0", "restart_on_full_generation0", "crash_in_write_call",
                "crash_between_close_and_first_rename", "crash_between_two_renames", "crash_after_last_rename_before_open",
                "crash_at_open", "crash_outside_rollover", "torn_tail_glued_to_next_line", "inflight_message_complete_after_crash",
                "inflight_message_absent_after_crash", "directory_created_by_policy", "max_gen_one", "oversized_single_message",
                "recovery_rolled_twice",
-               "through_files_handler_wrapper", "entry_longer_than_1000_bytes", "new_file_series_after_date_change", "ten_or_more_generation_files_on_disk" };
+               "through_files_handler_wrapper", "entry_longer_than_1000_bytes", "new_file_series_after_date_change", "ten_or_more_generation_files_on_disk",
+               "message_of_blanks_only", "empty_message" };
 
 /// formatter for the files::Handler wrapper: the message text as it is (the
 /// default formatter adds fields and a line end of its own)
@@ -99,6 +101,7 @@ struct Run
    /// generation 0 ended with text that has no line end when it was (re)opened:
    /// for the library that text is an entry, on disk it has no line of its own
    int              open_fragment = 0;
+   int              blank_count = 0;
    uint64_t         sim_seconds = 0;
    size_t           over_long_from = 0;
    /// file name with a date part: every date has its own series of generations
@@ -624,8 +627,17 @@ struct Run
 
    // ------------------------------------------------------------ actions
 
-   std::string nextMessage( size_t len)
+   /// blank: an entry without visible text (empty, blanks, a tab); the number
+   /// of characters makes it unique
+   std::string nextMessage( size_t len, bool blank = false)
    {
+      if (blank)
+      {
+         std::string  b( static_cast< size_t>( blank_count++), ' ');
+         if (b.size() >= 2 && (b.size() % 2) == 0) b[ 0] = '\t';
+         st.probe( b.empty() ? P_empty_message : P_blank_message);
+         return b;
+      }
       std::string  t = "m" + std::to_string( msgs.size()) + ".";
       static const char  fill[] = "abcdefghijklmnopqrstuvwxyz";
       while (t.size() < len) t.push_back( fill[ (msgs.size() + t.size()) % 26]);
@@ -937,7 +949,7 @@ struct Run
             continue;
          const size_t  len = static_cast< size_t>( std::max< long long>( 1, op.geti( "len", 8)));
          Msg           m;
-         m.text = nextMessage( len);
+         m.text = nextMessage( len, op.geti( "blank", 0) != 0);
          if (!counted && m.text.size() + 1 >= limit)
          {
             // a message that does not even fit into an empty file: outside the
@@ -1120,6 +1132,7 @@ public:
       const unsigned  fault_pct = (mode <= 2) ? 0 : static_cast< unsigned>( fl.range( 3, 15));
       const bool      strict_len = cfg.chance( 3, 4);   // messages always fit the byte limit
       const bool      long_entries = cfg.chance( 1, 8);
+      const bool      blank_entries = (mode <= 2) && cfg.chance( 1, 3);
       const size_t    max_ops = thorough ? 40 : 24;
       size_t          nops = 1 + static_cast< size_t>( wl.below( wl.chance( 1, 3) ? 6 : max_ops));
       if (many_generations) nops = max_ops;
@@ -1146,6 +1159,9 @@ public:
             if (counted && long_entries && wl.chance( 1, 4)) len = wl.range( 1000, 2600);
             if (!counted && strict_len) len = std::min< long long>( len, limit - 2);
             op[ "len"] = len;
+            // entries without visible text (fault-free runs only: a torn blank
+            // entry could not be told from a shorter one)
+            if (blank_entries && wl.chance( 1, 4)) op[ "blank"] = true;
          }
          if (fl.below( 100) < fault_pct)
          {
